@@ -200,10 +200,11 @@ def build_recording(tier):
     # (cfg, simulate-walks, sample-size, extra pipe-run flags)
     V0, A0 = ["--validate=false"], ["--alt=false"]
     plan = [("Pipeline_c04.cfg", None, 600 if thorough else 56, V0), ("Pipeline_c01sim.cfg", 1200 if thorough else 40, None, V0),
-            ("Pipeline_sim.cfg", 2500 if thorough else 50, None, V0), ("Pipeline_c06single.cfg", None, 10 ** 6, V0), ("Pipeline_c06grp.cfg", None, 10 ** 6 if thorough else 16, V0), ("Pipeline_c06sim.cfg", 1500 if thorough else 30, None, V0),
-            ("Pipeline_c07sim.cfg", 1500 if thorough else 40, None, V0), ("Pipeline_c11rules.cfg", None, 10 ** 6, V0), ("Pipeline_c11rulesp.cfg", None, 10 ** 6, V0), ("Pipeline_c10core.cfg", None, 10 ** 6, A0), ("Pipeline_c10.cfg", None, 1000 if thorough else 40, A0), ("Pipeline_c10mask.cfg", None, 700 if thorough else 90, A0),
+            ("Pipeline_sim.cfg", 2500 if thorough else 40, None, V0), ("Pipeline_c06single.cfg", None, 10 ** 6, V0), ("Pipeline_c06grp.cfg", None, 10 ** 6 if thorough else 16, V0), ("Pipeline_c06sim.cfg", 1500 if thorough else 30, None, V0),
+            ("Pipeline_c07sim.cfg", 1500 if thorough else 40, None, V0), ("Pipeline_c11rules.cfg", None, 10 ** 6, V0), ("Pipeline_c11rulesp.cfg", None, 10 ** 6, V0), ("Pipeline_c10core.cfg", None, 10 ** 6, A0), ("Pipeline_c10.cfg", None, 1000 if thorough else 40, A0), ("Pipeline_c10mask.cfg", None, 700 if thorough else 40, A0),
+            ("Pipeline_c10maskcore.cfg", None, 10 ** 6, A0), ("Pipeline_c10enf.cfg", None, 10 ** 6, A0),
             ("Pipeline_c13sim.cfg", 400 if thorough else 24, None, V0 + A0),
-            ("Pipeline_c14sim.cfg", 2000 if thorough else 60, None, V0), ("Pipeline_c14types.cfg", None, 10 ** 6, V0)]
+            ("Pipeline_c14sim.cfg", 2000 if thorough else 40, None, V0), ("Pipeline_c14types.cfg", None, 10 ** 6, V0)]
     if thorough:
         plan.append(("Pipeline_c10sim.cfg", 1500, None, A0))
     import concurrent.futures
